@@ -57,15 +57,24 @@ CHECKS["C15"] = dict(
          "'riemann_solve(k) == k-th solver' and 'exact reports failure for "
          "vacuum data'. Symmetry is decided for non_diffusive, roe, llxf, "
          "hllc_ball, hllsy and (partly) hlle; for the others the NRA "
-         "queries exceed the cap and are reported undecided.",
+         "queries exceed the cap and are reported undecided. van_leer's "
+         "invariance under a common velocity shift and a common factor on "
+         "pressures and densities is decided by induction over the Newton "
+         "iteration: the initial guess, one loop pass from an arbitrary "
+         "symbolic iterate and the final averaging are cut from the AST of "
+         "the real function and z3 decides equivariance of each (8 queries; "
+         "hypotheses: the pressure floor does not bind, divisors non-zero).",
     note="floats as reals; sqrt = fresh non-negative root (or a registered "
          "root after the change of variables rho=a^2, gamma*p*rho=k^2, each "
          "use justified by a solver query); pow uninterpreted with the "
          "axioms pow(1,e)=1, pow(b>0,e)>0, pow(b,0)=1, pow(b,1)=b; Newton "
-         "iterations bounded by niter=2",
+         "iterations bounded by niter=2 (symmetry, equal states, dispatch, "
+         "vacuum); the inductive van_leer unit covers any niter; scaling / "
+         "Galilean claims for `exact` are outside",
     technique="symbolic execution of the python source on z3 Real proxies "
               "(forward + mirrored run per path), SMT (QF_NRA/UF) per path, "
-              "replay of models",
+              "inductive step over the Newton loop cut from the AST for "
+              "van_leer, replay of models",
     design="2/C15")
 
 CHECKS["C19"] = dict(
@@ -270,7 +279,9 @@ CHECKS["C03"] = dict(
     note="the Cython->Python lowering (vf/gen2py.py) and the reference "
          "interpreter are trusted; prange sequential; paths per program are "
          "capped (incomplete programs are listed); programs are sampled by "
-         "VERIF_SEED",
+         "VERIF_SEED (64 + 16 per quick run; the 16 come from a boundary "
+         "family with frequent index ranges and the literals start_idx=0, "
+         "stop_idx=0)",
     technique="symbolic execution of the lowered generated code with "
               "solver-enumerated control inputs, trace equality against a "
               "reference interpreter, concrete replay",
